@@ -21,7 +21,6 @@ import (
 	"github.com/ipld/go-ipld-prime/linking"
 	cidlink "github.com/ipld/go-ipld-prime/linking/cid"
 
-	"github.com/sourcenetwork/corelog"
 	"github.com/sourcenetwork/immutable"
 
 	"github.com/sourcenetwork/defradb/internal/core"
@@ -253,14 +252,7 @@ func updateHeads(
 			// This means our root block is a new head
 			err := headset.Write(ctx, blockLink.Cid, priority)
 			if err != nil {
-				log.ErrorContextE(
-					ctx,
-					"Failure adding head (when root is a new head)",
-					err,
-					corelog.Any("Root", blockLink.Cid),
-				)
-				// OR should this also return like below comment??
-				// return nil, errors.Wrap("error adding head (when root is new head): %s ", root, err)
+				return NewErrAddingHead(blockLink.Cid, err)
 			}
 			continue
 		}
